@@ -9,7 +9,8 @@ import common as C
 import render as R
 
 UNI = R.Universe({"c0": "/vws/R/conftest.py", "c1": "/vws/R/sa/conftest.py", "cs": "/vws/R/s/conftest.py",
-                  "t": "/vws/R/sa/b/test_t.py"})
+                  "t": "/vws/R/sa/b/test_t.py",
+                  "tp": "/vws/venv/lib/python3.11/site-packages/tp/plugin.py"})
 REPEATS = 3
 
 
